@@ -11,7 +11,7 @@ P = {
         "numbers are written with 17 significant digits, so RI values, z0 and Hz frequencies must load bit-exactly; MA/DB, scaled units and Touchstone 1 normalisation are compared within 512*eps*kappa (kappa = 1 polar, 1 + 0.115*|dB| for dB, +1 for the normalisation)",
     ],
     "tiers": tiers(
-        quick=[{"name": "rand", "mode": "run", "count": 8000, "max_size": 100, "shards": 8}],
+        quick=[{"name": "rand", "mode": "run", "count": 16000, "max_size": 100, "shards": 16, "max_seconds": 60}],
         thorough=[{"name": "rand", "mode": "run", "count": 600000, "max_size": 100, "shards": 16, "max_seconds": 1200}],
     ),
 }
